@@ -72,6 +72,27 @@ type closure struct {
 
 type bad struct{}
 
+// Lazy zero cells: the cells of arrays and slices with 64 or more elements start out as nil
+// and stand for the zero value of the element type; they are materialised where the element
+// type is known (IndexAddr, Index, load, store). Big zeroed buffers are allocated on every
+// path by package initialisers (histogram rings: 2 x 32768 cells each) and mostly never read.
+func forceT(p *value, t types.Type) value {
+	if *p == nil {
+		*p = zero(t)
+	}
+	return *p
+}
+
+// forceBytes materialises nil cells of a byte vector.
+func forceBytes(cells []value) []value {
+	for j := range cells {
+		if cells[j] == nil {
+			cells[j] = byte(0)
+		}
+	}
+	return cells
+}
+
 
 // Hash functions and equivalence relation:
 
@@ -110,6 +131,10 @@ func usesBuiltinMap(t types.Type) bool {
 func (x array) eq(t types.Type, _y interface{}) bool {
 	y := _y.(array)
 	tElt := t.Underlying().(*types.Array).Elem()
+	for i := range x {
+		forceT(&x[i], tElt)
+		forceT(&y[i], tElt)
+	}
 	for i, xi := range x {
 		if !equals(tElt, xi, y[i]) {
 			return false
@@ -218,6 +243,9 @@ func equals(t types.Type, x, y value) bool {
 
 // load returns the value of type T in *addr.
 func load(T types.Type, addr *value) value {
+	if *addr == nil {
+		*addr = zero(T)
+	}
 	switch T := T.Underlying().(type) {
 	case *types.Struct:
 		v := (*addr).(structure)
@@ -240,6 +268,15 @@ func load(T types.Type, addr *value) value {
 
 // store stores value v of type T into *addr.
 func store(T types.Type, addr *value, v value) {
+	if v == nil {
+		v = zero(T)
+	}
+	switch T := T.Underlying().(type) {
+	case *types.Struct, *types.Array:
+		if *addr == nil {
+			*addr = zero(T)
+		}
+	}
 	switch T := T.Underlying().(type) {
 	case *types.Struct:
 		lhs := (*addr).(structure)
